@@ -10,6 +10,8 @@ import (
 	"time"
 
 	cmttypes "github.com/cometbft/cometbft/types"
+
+	ccvtypes "github.com/cosmos/interchain-security/v7/x/ccv/types"
 )
 
 // Violation is one oracle failure with its witness.
@@ -77,6 +79,8 @@ type World struct {
 	Mons []Monitor
 
 	menu              []opGen
+	consumerTweak     func(id string, g *ccvtypes.ConsumerGenesisState)
+	afterHandshake    func(ci *CInfo, l *Link)
 	hostileQueued     map[string]int
 	lastRefresh       time.Time
 	NoKeepAlive       bool
